@@ -37,8 +37,6 @@ import (
 	"github.com/projectcalico/calico/verifkit/ev"
 )
 
-const c27KnownSig = "shadowed-invalid-sets-err"
-
 // ---- sources, in the statement's priority order (highest first) ----
 
 type c27Src int
@@ -353,8 +351,8 @@ func c27Classify(name, raw string, info c27Info) c27Class {
 		}
 	}
 	// Outside the table (arbitrary parameters, junk replacement values): classification is
-	// used only to recognise the known-finding signature and for the histogram; it asks the
-	// parameter's own parser.
+	// used only for the histogram / non-trivial classes and to know whether an effective value of
+	// an arbitrary parameter is fatal; it asks the parameter's own parser.
 	if _, err := config.Params()[strings.ToLower(name)].Parse(raw); err != nil {
 		return c27ClsInvalid
 	}
@@ -449,7 +447,6 @@ func c27CheckTable(t *testing.T) map[string]c27Info {
 func TestVerifC27Priority(t *testing.T) {
 	ev.Quiet()
 	infos := c27CheckTable(t)
-	known := ev.Known(c27KnownSig)
 	rec := ev.New("C27", "config",
 		"1-6 table parameters (every param_types kind) + 0-2 arbitrary parameters, each set in a random subset of the six sources with valid/invalid/none/case-variant raw values, fed through the real env/file loaders and UpdateFrom; non-trivial = some parameter is set by >=2 effective sources with different raw values; distinct = (parameter, per-source value class) shape",
 		"expected parsed values of the table parameters are written by hand in the harness",
@@ -501,7 +498,7 @@ func TestVerifC27Priority(t *testing.T) {
 		winners := map[string]win{}
 		var shadowed [][2]int // (source, index) of entries that are set but do not decide
 		contested := false
-		excludedHere := false
+		shadowedFatal := false
 		for s := c27Src(0); s < c27NumSrc; s++ {
 			for i := range asg[s] {
 				e := &asg[s][i]
@@ -515,23 +512,10 @@ func TestVerifC27Priority(t *testing.T) {
 					winners[e.Param] = win{s, e.Raw, c27Classify(e.Param, e.Raw, info)}
 					continue
 				}
-				// shadowed by a higher-priority source
-				if info.fatal(c27Classify(e.Param, e.Raw, info)) && known {
-					// Known finding: a shadowed value that would be fatal if effective sets
-					// Config.Err.  Steer exactly that signature away: use a valid value.
-					excludedHere = true
-					if info.Tab != nil {
-						e.Raw = info.Tab.Valid[0].Raw
-					} else {
-						e.Raw = w.raw // same as the winner: cannot be fatal unless the winner is
-						if info.fatal(w.cls) {
-							e.Raw = "0"
-						}
-					}
-					if info.fatal(c27Classify(e.Param, e.Raw, info)) {
-						// could not find a harmless replacement: drop the entry
-						e.Raw = ""
-					}
+				// shadowed by a higher-priority source: may hold anything, including values that
+				// would be fatal if they were effective
+				if info.fatal(c27Classify(e.Param, e.Raw, info)) {
+					shadowedFatal = true
 				}
 				if e.Raw != w.raw {
 					contested = true
@@ -539,28 +523,6 @@ func TestVerifC27Priority(t *testing.T) {
 				shadowed = append(shadowed, [2]int{int(s), i})
 			}
 		}
-		if excludedHere {
-			rec.Excluded(c27KnownSig)
-			// drop entries blanked above
-			for s := range asg {
-				kept := asg[s][:0]
-				for _, e := range asg[s] {
-					if e.Raw != "" {
-						kept = append(kept, e)
-					}
-				}
-				asg[s] = kept
-			}
-			shadowed = shadowed[:0]
-			for s := c27Src(0); s < c27NumSrc; s++ {
-				for i, e := range asg[s] {
-					if w := winners[e.Param]; !effective(e.Param, s) || w.src != s {
-						shadowed = append(shadowed, [2]int{int(s), i})
-					}
-				}
-			}
-		}
-
 		order := rapid.Permutation([]c27Src{0, 1, 2, 3, 4, 5}).Draw(t, "updateOrder")
 		viaOverride := rapid.Bool().Draw(t, "viaOverrideParam")
 		base := c27Run(t, asg, order, false, viaOverride)
@@ -652,8 +614,8 @@ func TestVerifC27Priority(t *testing.T) {
 				if rapid.IntRange(0, 4).Draw(t, "junk") == 0 {
 					raw = rapid.SampledFrom([]string{"junk", "-1", "!!", "NONE", "999999999999"}).Draw(t, "junkRaw")
 				}
-				if known && effective(e.Param, c27Src(si[0])) && info.fatal(c27Classify(e.Param, raw, info)) {
-					continue // known-finding signature: keep the original shadowed value
+				if effective(e.Param, c27Src(si[0])) && info.fatal(c27Classify(e.Param, raw, info)) {
+					shadowedFatal = true
 				}
 				e.Raw = raw
 			}
@@ -727,6 +689,9 @@ func TestVerifC27Priority(t *testing.T) {
 		if contested {
 			cl = append(cl, "contested")
 		}
+		if shadowedFatal {
+			cl = append(cl, "shadowed-value-would-be-fatal")
+		}
 		if !base.ErrNil {
 			cl = append(cl, "result-error")
 		}
@@ -736,16 +701,14 @@ func TestVerifC27Priority(t *testing.T) {
 	})
 }
 
-// TestVerifC27KnownShadowedInvalid is the deterministic confirmation of the finding
-// "shadowed-invalid-sets-err": it fails while a shadowed (lower-priority) invalid value of a
-// die-on-fail parameter makes UpdateFrom fail, and passes once shadowed values are ignored.
-// Inputs are what the real loaders produce from FELIX_CHAININSERTMODE=append in the environment
-// and "ChainInsertMode = bogus" in the config file, in the order the Felix daemon applies them.
+// TestVerifC27KnownShadowedInvalid is the deterministic regression test for the finding
+// "shadowed-invalid-sets-err" (fixed in /repo: resolve() used to parse shadowed values before
+// skipping them, so a shadowed invalid value of a die-on-fail parameter, or a shadowed 'none' for
+// a non-zero parameter, made UpdateFrom fail).  Inputs are what the real loaders produce from
+// FELIX_CHAININSERTMODE=append in the environment and "ChainInsertMode = bogus" in the config
+// file, in the order the Felix daemon applies them.
 func TestVerifC27KnownShadowedInvalid(t *testing.T) {
 	ev.Quiet()
-	if ev.Known(c27KnownSig) {
-		t.Skip("listed as a known finding; the driver confirms it in a separate run")
-	}
 	cfg := config.New()
 	env := config.LoadConfigFromEnvironment([]string{"FELIX_CHAININSERTMODE=append"})
 	file, err := config.LoadConfigFileData([]byte("[global]\nChainInsertMode = bogus\n"))
